@@ -52,23 +52,27 @@ class Lock(object):
 # regeneration of coq/gen/*.v from /repo (translators); fail-closed
 # ---------------------------------------------------------------------------------
 GENERATORS = [
-    ('Consts.v', [PY, '-B', os.path.join(HERE, 'translate_consts.py')], []),
+    # (generated file, command, properties whose proofs depend on it; None = all)
+    ('Consts.v', [PY, '-B', os.path.join(HERE, 'translate_consts.py')], None),
     ('FsmGen.v', [PY, '-B', os.path.join(HERE, 'translate_fsm.py'),
-                  os.path.join(REPO, 'yabgp/core/fsm.py')], []),
-    ('Inventory.v', [PY, '-B', os.path.join(HERE, 'inventory.py')], []),
+                  os.path.join(REPO, 'yabgp/core/fsm.py')],
+     {'C01', 'C02', 'C03', 'C04', 'C05', 'C10', 'C12', 'C13', 'C16', 'C18'}),
+    ('Inventory.v', [PY, '-B', os.path.join(HERE, 'inventory.py')], {'C11'}),
+    ('RestInventory.v', [PY, '-B', os.path.join(HERE, 'inventory_rest.py')], {'C16'}),
 ]
 
 
-def regen():
-    """returns list of (file, rc, output) for generators that failed"""
+def regen(prop=None):
+    """run every generator; returns list of (file, rc, output) for generators that failed
+    and that property `prop` depends on (all failures when prop is None)"""
     failed = []
     os.makedirs(os.path.join(COQ, 'gen'), exist_ok=True)
     with Lock('gen'):
-        for name, cmd, _ in GENERATORS:
+        for name, cmd, deps in GENERATORS:
             if not os.path.exists(cmd[2]):
                 continue
             rc, out = sh(cmd + [os.path.join(COQ, 'gen', name)], timeout=300)
-            if rc != 0:
+            if rc != 0 and (prop is None or deps is None or prop in deps):
                 failed.append((name, rc, out.strip()[-2000:]))
     return failed
 
@@ -245,9 +249,15 @@ def parse_nats(out):
 # ---------------------------------------------------------------------------------
 def known_findings(prop):
     p = os.path.join(VERIF, 'known_findings.json')
-    if not os.path.exists(p):
-        return []
-    return [k for k in json.load(open(p)).get('known', []) if k['property'] == prop]
+    ks = []
+    if os.path.exists(p):
+        ks += json.load(open(p)).get('known', [])
+    # development aid only (never set by the registered commands): extra entries being proposed
+    extra = os.environ.get('VERIF_KNOWN_EXTRA')
+    if extra and os.path.exists(extra):
+        x = json.load(open(extra))
+        ks += x if isinstance(x, list) else x.get('known', [x])
+    return [k for k in ks if k['property'] == prop]
 
 
 def write_replay(prop, name, obj):
